@@ -252,6 +252,38 @@ theorem copy_clean_eof (l : Limiter) (rs : List ReadEv) (ws : List WriteEv) (st 
     (copy l rs ws st).2.1 = .eof :=
   copyFrom_clean_eof l 0 rs ws st m hr hw hm
 
+/-- One iteration on clean scripts never ends the loop and leaves a clean write script. -/
+theorem iter_clean (l : Limiter) (ev : ReadEv) (ws : List WriteEv) (st : St) (m : Nat)
+    (hc : ev.cancelled = false) (he : ev.err ≠ some .fatal) (hw : CleanWrites ws m) (hlen : ev.data.length ≤ m) :
+    (iter l ev ws st).stop = none ∧ CleanWrites (iter l ev ws st).ws m ∧
+    (∀ w ∈ (iter l ev ws st).ws, w ∈ ws) := by
+  have hlim : limiterOk l ev = true := by rw [limiterOk_iff]; simp [hc]
+  obtain ⟨hwe, hacc, hws'⟩ := cleanWrites_next hw hlen
+  have hmin : min (nextWrite ws ev.data.length).1.accept ev.data.length = ev.data.length :=
+    Nat.min_eq_right hacc
+  have hsub : ∀ w ∈ (nextWrite ws ev.data.length).2, w ∈ ws := by
+    cases ws with
+    | nil => simp [nextWrite]
+    | cons a b => intro w hw'; exact List.mem_cons_of_mem _ hw'
+  unfold iter
+  by_cases hemp : ev.data.isEmpty
+  · cases herr : ev.err with
+    | none => simp only [hemp, if_true, herr]; exact ⟨trivial, hw, fun w h => h⟩
+    | some e =>
+      cases e with
+      | fatal => exact absurd herr he
+      | timeout => simp only [hemp, if_true, herr]; exact ⟨trivial, hw, fun w h => h⟩
+  · cases herr : ev.err with
+    | none =>
+      simp only [hemp, Bool.false_eq_true, if_false, hlim, Bool.not_true, hwe, hmin, ne_eq, not_true_eq_false, herr]
+      exact ⟨trivial, hws', hsub⟩
+    | some e =>
+      cases e with
+      | fatal => exact absurd herr he
+      | timeout =>
+        simp only [hemp, Bool.false_eq_true, if_false, hlim, Bool.not_true, hwe, hmin, ne_eq, not_true_eq_false, herr]
+        exact ⟨trivial, hws', hsub⟩
+
 /-! ### bridge invariant -/
 
 /-- Invariant of one direction w.r.t. its original read script `rs0`. -/
@@ -363,5 +395,158 @@ theorem BInv_run (sr tr : List ReadEv) (b : Bridge) (sched : List Who) (h : BInv
   induction sched generalizing b with
   | nil => exact h
   | cons w ws ih => exact ih _ (BInv_step sr tr b w h)
+
+/-! ### fault-free scripts: the bridge never ends by itself -/
+
+def NoBlock (ws : List WriteEv) : Prop := ∀ w ∈ ws, w.block = false
+
+def DirClean (m : Nat) (d : Dir) : Prop :=
+  CleanReads d.reads ∧ CleanWrites d.writes m ∧ (∀ ev ∈ d.reads, ev.data.length ≤ m) ∧ NoBlock d.writes
+
+def eofSome (b : Bridge) : Prop := b.s2t.stop = some .eof ∨ b.t2s.stop = some .eof
+
+/-- Invariant for fault-free runs: whoever stopped, stopped by end-of-stream or after an end-of-stream. -/
+def JInv (m1 m2 : Nat) (b : Bridge) : Prop :=
+  DirClean m1 b.s2t ∧ DirClean m2 b.t2s ∧ (b.closed = true → eofSome b) ∧
+  (∀ x, b.s2t.stop = some x → x = .eof ∨ eofSome b) ∧ (∀ x, b.t2s.stop = some x → x = .eof ∨ eofSome b)
+
+theorem dirStep_clean (l : Limiter) (closed : Bool) (opp : Nat) (m : Nat) (d : Dir) (hd : DirClean m d) :
+    DirClean m (d.step l closed opp) ∧
+    ((d.step l closed opp).stop = d.stop ∨
+     (d.stop = none ∧ closed = true ∧ (d.step l closed opp).stop = some .readErr) ∨
+     (d.stop = none ∧ closed = false ∧ (d.step l closed opp).stop = some .eof)) := by
+  obtain ⟨hr, hw, hl, hb⟩ := hd
+  unfold Dir.step
+  cases hs : d.stop with
+  | some s => simp only; exact ⟨⟨hr, hw, hl, hb⟩, Or.inl hs⟩
+  | none =>
+    simp only
+    by_cases hc : closed
+    · simp only [hc, if_true]
+      exact ⟨⟨hr, hw, hl, hb⟩, Or.inr (Or.inl (by simp))⟩
+    · simp only [hc, Bool.false_eq_true, if_false]
+      cases hrd : d.reads with
+      | nil =>
+        simp only
+        refine ⟨⟨?_, hw, ?_, hb⟩, Or.inr (Or.inr (by simp [hc]))⟩
+        · rw [hrd] at hr; exact hr
+        · rw [hrd] at hl; exact hl
+      | cons ev rs =>
+        simp only
+        rw [hrd] at hr hl
+        have hev := hr ev (List.mem_cons_self ..)
+        have hlen := hl ev (List.mem_cons_self ..)
+        by_cases hblk : opp < ev.after
+        · simp only [hblk, if_true]
+          refine ⟨⟨?_, hw, ?_, hb⟩, Or.inl hs⟩
+          · rw [hrd]; exact hr
+          · rw [hrd]; exact hl
+        · simp only [hblk, if_false]
+          have hnb : (nextWrite d.writes ev.data.length).1.block = false := by
+            cases hws : d.writes with
+            | nil => simp [nextWrite]
+            | cons a t => simp only [nextWrite]; exact hb a (by rw [hws]; exact List.mem_cons_self ..)
+          simp only [hnb, Bool.and_false, Bool.false_eq_true, if_false]
+          obtain ⟨hstop, hws', hsub⟩ := iter_clean l ev d.writes d.st m hev.1 hev.2 hw hlen
+          simp only [hstop]
+          refine ⟨⟨cleanReads_tail hr, hws', fun e he => hl e (List.mem_cons_of_mem _ he), ?_⟩, Or.inl (by simp)⟩
+          intro w hw'
+          exact hb w (hsub w hw')
+
+theorem JInv_step (m1 m2 : Nat) (b : Bridge) (w : Who) (h : JInv m1 m2 b) : JInv m1 m2 (b.step w) := by
+  obtain ⟨h1, h2, hc, hs1, hs2⟩ := h
+  cases w with
+  | s2t =>
+    obtain ⟨hd, hcase⟩ := dirStep_clean b.lim b.closed b.t2s.st.delivered.length m1 b.s2t h1
+    simp only [Bridge.step]
+    rcases hcase with heq | ⟨hn, hcl, hre⟩ | ⟨hn, hcl, heof⟩
+    · -- stop unchanged
+      refine ⟨hd, h2, ?_, ?_, ?_⟩
+      · intro hclosed
+        simp only [Bool.or_eq_true] at hclosed
+        rcases hclosed with hcl | hsome
+        · rcases hc hcl with e | e
+          · left; show (b.s2t.step _ _ _).stop = _; rw [heq]; exact e
+          · right; exact e
+        · rw [heq] at hsome
+          cases hst : b.s2t.stop with
+          | none => rw [hst] at hsome; simp at hsome
+          | some x =>
+            rcases hs1 x hst with e | e
+            · left; show (b.s2t.step _ _ _).stop = _; rw [heq, hst, e]
+            · rcases e with e | e
+              · left; show (b.s2t.step _ _ _).stop = _; rw [heq]; exact e
+              · right; exact e
+      · intro x hx
+        rw [heq] at hx
+        rcases hs1 x hx with e | e
+        · exact Or.inl e
+        · right
+          rcases e with e | e
+          · left; show (b.s2t.step _ _ _).stop = _; rw [heq]; exact e
+          · right; exact e
+      · intro x hx
+        rcases hs2 x hx with e | e
+        · exact Or.inl e
+        · right
+          rcases e with e | e
+          · left; show (b.s2t.step _ _ _).stop = _; rw [heq]; exact e
+          · right; exact e
+    · -- stopped because the bridge was already closed: the other direction reached EOF
+      have he : eofSome b := hc hcl
+      have het : b.t2s.stop = some .eof := by
+        rcases he with e | e
+        · rw [hn] at e; cases e
+        · exact e
+      refine ⟨hd, h2, fun _ => Or.inr het, fun x _ => Or.inr (Or.inr het), fun x _ => Or.inr (Or.inr het)⟩
+    · -- reached its own end of stream
+      refine ⟨hd, h2, fun _ => Or.inl heof, fun x _ => Or.inr (Or.inl heof), fun x _ => Or.inr (Or.inl heof)⟩
+  | t2s =>
+    obtain ⟨hd, hcase⟩ := dirStep_clean b.lim b.closed b.s2t.st.delivered.length m2 b.t2s h2
+    simp only [Bridge.step]
+    rcases hcase with heq | ⟨hn, hcl, hre⟩ | ⟨hn, hcl, heof⟩
+    · refine ⟨h1, hd, ?_, ?_, ?_⟩
+      · intro hclosed
+        simp only [Bool.or_eq_true] at hclosed
+        rcases hclosed with hcl | hsome
+        · rcases hc hcl with e | e
+          · left; exact e
+          · right; show (b.t2s.step _ _ _).stop = _; rw [heq]; exact e
+        · rw [heq] at hsome
+          cases hst : b.t2s.stop with
+          | none => rw [hst] at hsome; simp at hsome
+          | some x =>
+            rcases hs2 x hst with e | e
+            · right; show (b.t2s.step _ _ _).stop = _; rw [heq, hst, e]
+            · rcases e with e | e
+              · left; exact e
+              · right; show (b.t2s.step _ _ _).stop = _; rw [heq]; exact e
+      · intro x hx
+        rcases hs1 x hx with e | e
+        · exact Or.inl e
+        · right
+          rcases e with e | e
+          · left; exact e
+          · right; show (b.t2s.step _ _ _).stop = _; rw [heq]; exact e
+      · intro x hx
+        rw [heq] at hx
+        rcases hs2 x hx with e | e
+        · exact Or.inl e
+        · right
+          rcases e with e | e
+          · left; exact e
+          · right; show (b.t2s.step _ _ _).stop = _; rw [heq]; exact e
+    · have he : eofSome b := hc hcl
+      have hes : b.s2t.stop = some .eof := by
+        rcases he with e | e
+        · exact e
+        · rw [hn] at e; cases e
+      refine ⟨h1, hd, fun _ => Or.inl hes, fun x _ => Or.inr (Or.inl hes), fun x _ => Or.inr (Or.inl hes)⟩
+    · refine ⟨h1, hd, fun _ => Or.inr heof, fun x _ => Or.inr (Or.inr heof), fun x _ => Or.inr (Or.inr heof)⟩
+
+theorem JInv_run (m1 m2 : Nat) (b : Bridge) (sched : List Who) (h : JInv m1 m2 b) : JInv m1 m2 (b.run sched) := by
+  induction sched generalizing b with
+  | nil => exact h
+  | cons w ws ih => exact ih _ (JInv_step m1 m2 b w h)
 
 end Tunnox.C02
